@@ -195,5 +195,8 @@ def run(ctx):
     import c03
 
     ctx.include("C17.6", "no finding is dropped by a de-duplication whose outcome depends on the order in which definitions, passes or files were processed: the runner and the writers never narrow a report collection (shared with C03.1)", c03.rule_drain, only=["no-narrowing", "appends-everything"])
+    import c09
+
+    ctx.include("C17.8", "prerequisite shared with C09: taint reachability is the full reflexive-transitive closure (a bounded search makes the answer depend on hash order) and every version of a variable gets its own claim (shared with C09.1/C09.4)", c09.rule_taint, c09.rule_selection, only=["taints_any", "multi_step_taint", "report/"])
     ctx.include("C17.5", "a file that fails to parse does not stop the remaining files from being read (otherwise findings depend on the order of the command line)", c19.rule_user_inputs, only=["parse_files/"])
     ctx.include("C17.7", "whether a file counts as user input does not depend on the order in which files were read: the user inputs are the set of canonical paths queued from the command line, and the stack holds plain canonical paths (shared with C19.1/C19.4)", c19.rule_canonical, c19.rule_user_inputs)
